@@ -154,6 +154,14 @@ def f27(spec, kind, message):
     """Open-finding classifier F27: the geometry is tiny compared with the buffers (below a fifth of a buffer on both axes in the
     space the code buffers in).  GEOS simplifies the input outline with a tolerance of 1 % of the buffer distance before it buffers, so
     concavities / vertices disappear at the larger buffer and the mitre protrusions they caused at the smaller one are not covered."""
+    if kind == "bounds_growth":
+        # the same simplification moves the extreme vertex of a geometry that is smaller than its tolerance (1 % of the buffer) by up to
+        # the geometry's own extent: the bounds then fall short of "original extreme + buffer" by a few millionths of the buffer
+        g = spec["g"]
+        if not any(len(pts) >= 3 for pts, _ in _chains(g["type"], g["coordinates"])):
+            return False
+        b = ref_bounds(g["type"], g["coordinates"])
+        return any(tb > 0 and fb > 0 and max((b[2] - b[0]) / tb, (b[3] - b[1]) / fb) < 0.01 for tb, fb in (spec["b1"], spec["b2"]))
     if kind != "monotone":
         return False
     g = spec["g"]
